@@ -204,6 +204,7 @@ class Live:
         self.conf = conf_pool[key]
         self.conf._concrete = self.concrete
         self.handed = None
+        self.handed_kind = "N"
 
     # -- observation ------------------------------------------------------------------------
     def cache_keys(self):
@@ -249,12 +250,16 @@ class Live:
         act, c, p, st, x, how = a["act"], a["c"], a["p"], a["st"], a["x"], a["how"]
         conc, conf, w = self.concrete, self.conf, self.world
         if act == "Query":
+            uses = x in ("full", "lenient")
+            before = uses and (c, p) in self.cache_keys().values()
             r = self.query(c, p, x, variant)
             self.handed = r
+            self.handed_kind = "H" if before else ("M" if uses and (c, p) in self.cache_keys().values() else "O")
             return "ok", r
         if act == "MutateReturned":
             scribble(self.handed)
             self.handed = None
+            self.handed_kind = "N"
             return "done", None
         cid = w.cid.get(c)
         node = w.node.get(c)
